@@ -2,8 +2,5 @@ SPECIFICATION Spec
 CONSTANTS
   VerifyBeforeFormula = TRUE
   ResetRecurses = TRUE
-INVARIANT Emit
-INVARIANT DesignOK
-INVARIANT OracleOK
-INVARIANT WellFormedOK
+INVARIANT Judged
 CHECK_DEADLOCK FALSE
